@@ -149,9 +149,18 @@ func within(d time.Duration, f func()) bool {
 		return true
 	case <-time.After(d):
 		lastPanic = ""
+		hangs++
 		return false
 	}
 }
+
+// hangs counts the calls that did not return within their failure time-out in this run.  Once a few
+// have been seen (a regression that makes an exit path hang), the sessions that aim at the same
+// region again (input pending at the signal / at Close with a full queue) are generated without that
+// ingredient: every hang costs a whole time-out and the first ones are the failing inputs.
+var hangs int
+
+const maxHangs = 5
 
 func session(r *hx.Run, rng *gen.Rng, id string, sub uint32, disableMouse bool, shape int, cursorStyle int) error {
 	var mask uint32
@@ -191,7 +200,7 @@ func session(r *hx.Run, rng *gen.Rng, id string, sub uint32, disableMouse bool, 
 			break
 		}
 		r.Count("startup-disturbed-retry")
-		within(10*time.Second, func() { vx.Close() })
+		within(6*time.Second, func() { vx.Close() })
 		if try >= 8 {
 			r.Count("startup-disturbed-giveup")
 			r.Case(id)
@@ -284,7 +293,7 @@ func session(r *hx.Run, rng *gen.Rng, id string, sub uint32, disableMouse bool, 
 		}
 	}
 	doClose := func() {
-		ok := within(10*time.Second, func() { vx.Close() })
+		ok := within(6*time.Second, func() { vx.Close() })
 		if !ok {
 			r.Emit(fmt.Sprintf("close %d %d %d %d %d %d", bi(cnv), bi(clv), bi(closed), crow, ccol, cstyle), "hang")
 			r.Count("close-hang")
@@ -313,7 +322,7 @@ func session(r *hx.Run, rng *gen.Rng, id string, sub uint32, disableMouse bool, 
 		frames(1 + rng.Intn(3))
 		for k := rng.Intn(3); k >= 0; k-- {
 			pending()
-			if !within(10*time.Second, func() { vx.Suspend() }) {
+			if !within(6*time.Second, func() { vx.Suspend() }) {
 				r.Emit(fmt.Sprintf("suspend %d %d %d %d %d", bi(cnv), bi(clv), crow, ccol, cstyle), "hang")
 				return nil
 			}
@@ -332,7 +341,7 @@ func session(r *hx.Run, rng *gen.Rng, id string, sub uint32, disableMouse bool, 
 		pending()
 		// round 3 (F53 repaired): Close while the event queue is full, nobody receives and input is
 		// pending — the input goroutine is blocked in a post, the parser's channel is full
-		if rng.Chance(1, 3) {
+		if rng.Chance(1, 3) && hangs < maxHangs {
 			for i := 0; i < 1100 && len(vx.Events()) < cap(vx.Events()); i++ {
 				vx.PostEvent(vaxis.Redraw{})
 			}
@@ -345,7 +354,7 @@ func session(r *hx.Run, rng *gen.Rng, id string, sub uint32, disableMouse bool, 
 	case 3:
 		// the application exits while suspended: Suspend, then Close without Resume
 		frames(1)
-		if !within(10*time.Second, func() { vx.Suspend() }) {
+		if !within(6*time.Second, func() { vx.Suspend() }) {
 			r.Emit(fmt.Sprintf("suspend %d %d %d %d %d", bi(cnv), bi(clv), crow, ccol, cstyle), "hang")
 			return nil
 		}
@@ -353,7 +362,7 @@ func session(r *hx.Run, rng *gen.Rng, id string, sub uint32, disableMouse bool, 
 		cnv = false
 		if rng.Chance(1, 2) {
 			// Suspend while suspended: returns at once, writes nothing
-			if !within(10*time.Second, func() { vx.Suspend() }) {
+			if !within(6*time.Second, func() { vx.Suspend() }) {
 				r.Emit(fmt.Sprintf("suspend %d %d %d %d %d", bi(cnv), bi(clv), crow, ccol, cstyle), "hang")
 				return nil
 			}
@@ -364,7 +373,7 @@ func session(r *hx.Run, rng *gen.Rng, id string, sub uint32, disableMouse bool, 
 			r.Emit(fmt.Sprintf("suspend %d %d %d %d %d", bi(cnv), bi(clv), crow, ccol, cstyle), hx.Hex(string(fc.Take())))
 			r.Count("suspend-while-suspended")
 		}
-		ok := within(10*time.Second, func() { vx.Close() })
+		ok := within(6*time.Second, func() { vx.Close() })
 		if !ok {
 			r.Emit("closesuspended", "hang")
 			r.Count("close-while-suspended-hang")
@@ -382,18 +391,19 @@ func session(r *hx.Run, rng *gen.Rng, id string, sub uint32, disableMouse bool, 
 		frames(1 + rng.Intn(3))
 		// round 3 (F13 repaired): input pending when the signal arrives — Close then runs on the input
 		// goroutine while the parser's channel is full; the terminal must be restored all the same
-		if rng.Chance(1, 2) {
+		if rng.Chance(1, 2) && hangs < maxHangs {
 			fc.InjectString(strings.Repeat("k", 2+rng.Intn(8)))
 			r.Count("signal-with-input-pending")
 		}
 		// Close triggered by a termination signal: runs on the input goroutine
 		vx.VerifSignalKill()
-		deadline := time.Now().Add(10 * time.Second)
+		deadline := time.Now().Add(6 * time.Second)
 		for fc.CloseCalls == 0 && time.Now().Before(deadline) {
 			time.Sleep(200 * time.Microsecond)
 		}
 		time.Sleep(2 * time.Millisecond)
 		if fc.CloseCalls == 0 {
+			hangs++
 			r.Emit(fmt.Sprintf("closeby signal %d %d %d %d %d", bi(cnv), bi(clv), crow, ccol, cstyle), "hang")
 			r.Count("signal-close-hang")
 			return nil
